@@ -104,6 +104,10 @@ PROPS["C13"] = {
 PROPS["C03"] = {
     "level": "other",
     "technique": "Verus typestate contracts on the extracted Compactor::compact_l0 / compact_level (the swap is requested only under the lease acquired on exactly these sources and only for the target that merging exactly them produced; a source is scheduled for deletion only after the swap that removed it succeeded), merge_chunks (upload, then register, the returned path is the registered one, registered row count and time span are those of the uploaded object, nothing else changes) and timestamp_bounds (true min / max for both column types); Verus contracts on the extracted complete_compaction transformers of both backends (atomic swap: exactly the sources leave, target stays one level above the highest source, index invariant kept, unknown target => no change) and on the compactor's publish order",
+    "frame_scans": [{"file": "src/compactor/mod.rs", "patterns": [".complete_compaction(", ".schedule_deletion("],
+                     "allowed_units": ["compact_l0", "compact_level"],
+                     "allowed_functions": ["enforce_retention"],
+                     "message": "sources are swapped out and scheduled for deletion only by compact_l0 / compact_level (retention schedules what it dropped from the catalog itself: C09 unit)"}],
     "verus": ["c03_compaction.rs.in", "c03_compactor.rs.in"],
     "explanation": "Deductive obligations on the catalog transformers and the publish order of one compaction; row conservation of the merge itself rests on assumed arrow/parquet kernel contracts (concat_batches, sort_to_indices + take, Parquet encode/decode are value preserving). Crashes, two compactors and lease expiry are covered only through the atomic-swap contract (sources leave the catalog only inside one conditional PUT that requires the registered target) and the lease invariant of C08; interleavings are not explored.",
     "assumptions": [
@@ -192,6 +196,10 @@ PROPS["C09"] = {
 PROPS["C14"] = {
     "level": "other",
     "technique": "Verus contracts on the extracted ShardSplitter::execute_split_with_monitoring, resume_split, run_from_phase, SplitProgress::next_phase (ghost event log: the split is announced only after its progress file exists; a resumed split carries out exactly the phases after the recorded one, each once, in protocol order, clean-up last and only after the cut-over; on interruption only a prefix ran and the progress file never records a phase that was not carried out) and run_cutover (over a ghost catalog whose every request may fail before or after taking effect: every exit state is resumable, success = the state of an uninterrupted cut-over, no fault => success), run_backfill_with_progress (per-source bookkeeping never names a source that is not completely copied, at every exit; each non-empty side of each batch is written under the path of its own target shard, source, batch index and partition label; success = every source chunk copied and recorded), the partition loop of split_batch (C15 unit); Kani on the extracted SplitPhase enum and next_phase (discriminant order = protocol order, successor function)",
+    "frame_scans": [{"file": "src/sharding/splitter.rs", "patterns": [".complete_split(", ".update_shard_metadata(", ".delete(", ".delete_chunk("],
+                     "allowed_units": ["run_cutover", "cleanup"],
+                     "allowed_functions": ["remove_progress"],
+                     "message": "shard metadata changes and the end of the split state happen only in run_cutover; data is deleted only by cleanup (remove_progress deletes the progress file)"}],
     "verus": ["c14_split.rs.in", "c15_split.rs.in"],
     "kani": ["c14_phases"],
     "explanation": "Decided for the phase engine (resume point, order, bookkeeping never ahead of work), for crash-consistency of the cut-over sub-steps, and for row partition of one batch. Also under contract: write_chunk_to_path (object and catalog entry under the same path, row count and true min / max of the written data) and clean-up's delete loop (only the old shard's chunks). Not under contract: the string format of backfill_chunk_path (assumed injective), and the composition 'resume as often as needed reaches the same final state' as an induction over whole histories - the per-call contracts (every exit resumable + what remains is a suffix of the protocol) are its inductive step, the induction itself is not mechanised. Defects F17/F17b found by these contracts were repaired.",
@@ -293,7 +301,7 @@ PROPS["C06"] = {
 
 PROPS["C01"] = {
     "level": "other",
-    "technique": "Verus contract on the extracted recovery Ingester::ensure_wal (three nested loops: every decodable entry newer than the mark ends up in the buffer or in registered chunks and is covered by last_wal_seq; a flush issued during recovery never persists a mark that covers an entry not completely in chunks; start-up truncation cuts only what the mark covers; at every exit, also failed ones, the mark is safe); Verus effect-order contracts on the extracted write path (WAL append before buffer append before the acknowledgement; a WAL failure buffers nothing), on flush_batches (upload, registration, announcements, then WAL truncation, then the persisted mark; a failed flush never moves the mark; under quiescence the mark equals the flushed cover) and the WAL reader / header codec units of C05; two probes record the known findings F3 and F4",
+    "technique": "Verus contract on the extracted recovery Ingester::ensure_wal (three nested loops: every decodable entry newer than the mark ends up in the buffer or in registered chunks and is covered by last_wal_seq; a flush issued during recovery never persists a mark that covers an entry not completely in chunks; start-up truncation cuts only what the mark covers; at every exit, also failed ones, the mark is safe); Verus effect-order contracts on the extracted write path (WAL append before buffer append before the acknowledgement; a WAL failure buffers nothing; the write's sequence number is published only once its rows are buffered, so that a flush issued from inside the write cannot persist a mark covering it), on flush_batches (upload, registration, announcements, then WAL truncation, then the persisted mark; a failed flush never moves the mark; under quiescence the mark equals the flushed cover) and the WAL reader / header codec units of C05; two probes record the known findings F3 and F4",
     "frame_scans": [{"file": "src/ingester/mod.rs", "patterns": ["persist_flushed_seq(", ".truncate_before("],
                      "allowed_units": ["flush_batches", "ensure_wal", "flush_mark_sequential"],
                      "message": "the flushed mark is persisted and the log is truncated only by flush_batches and by recovery (ensure_wal)"}],
